@@ -32,6 +32,10 @@ CHECKS = {
          "All zones over an 11-name universe (cuts, glue, occluded data, nested cut, shared and two-level ENTs, wildcard, case twins, multi-window bitmaps, equal-RDATA unknown types, out-of-zone records): 82,944 zones quick / 746,496 thorough, x NSEC (DNSKEY assumed on/off) and 14/30 NSEC3 configs (salt x iterations x opt-out modes). Oracle written from RFC 4034/4035/5155 in the harness: own canonical order, cut/glue/occlusion predicates, ENT derivation, iterated SHA-1 + base32hex, bitmap codec; exact owner set, order, next pointers, bitmaps; and for every absent (name,type) over a 64-name closure x 12 types a matching-without-bit or covering record (incl. wrap-around, closest-encloser/next-closer for NSEC3, opt-out flag).",
          "ring SHA-1 as primitive; TTL values and NSEC3PARAM contents are not asserted (not in the property); an ENT derived only from opted-out delegations may be present or absent (RFC 5155 7.1).",
          "gramx", "DESIGN.md §3 C13"),
+ "C15": ("model_checking", "deviation-bounded exhaustive exploration (envx) of environment-answer sequences on the real client transports over mock sockets, hand-polled under tokio's paused clock",
+         "Every environment-answer sequence with <=2 (quick) / <=3 (thorough) deviations from 'deliver intact, in order' for 1-3 concurrent callers (two with the same question; plus a 6-caller recycled-slot case) on the real stream, dgram, dgram_stream and multi_stream transports: per quiescent point the mock may deliver any open request's answer, a wrong-ID/wrong-question/header-only/QR=0/stale/duplicate reply, short or split frames at every cut point, EOF, read/write errors, partial writes, cancellation, timer ticks, connect refusal. Oracle: every request completes exactly once; Ok(m) is byte-identical to a message the mock delivered for THAT caller (ID read back from the bytes the code wrote, question matches or header-only error); Err only with an environmental cause and, on tokio-clock transports, within the retry/timeout budget; TC over datagram leads to a stream attempt; no panic or livelock.",
+         "stream.rs measures its response/idle timeout with std::time::Instant, so stream timeouts are not exercised (every stream scenario ends by answer, error or EOF); redundant and load_balancer are not covered (unowned rand-driven probing); tokio current-thread, futures polled by the harness.",
+         "envx", "DESIGN.md §3 C15"),
  "C16": ("model_checking", "complete product enumeration through the real middleware stack + deviation-bounded exhaustive exploration (envx) of the real Dgram/Stream servers over mock sockets under a paused clock",
          "(a) full product of transport x EDNS size x configured limit x response size boundaries x OPT/question/layout variants through MandatoryMiddlewareSvc<EdnsMiddlewareSvc<CookiesMiddlewareSvc<svc>>>; (b) all environment-answer/service-completion sequences with <=3 (quick) / <=4 (thorough) deviations for 3 pipelined requests incl. malformed ones on the real DgramServer and StreamServer; (c) pipeline depth 1..16/64. Oracle: independent deframer/parser: framing, ID/question echo, exactly-once, size bound, TC iff dropped, liveness of other connections, no panic in any task.",
          "tokio current-thread FIFO scheduling with biased select! in the server code; mocks replace sockets; missing responses are excused on a connection the client or environment itself broke.",
